@@ -33,6 +33,13 @@ REQUIRE = {
     "col.child_sizes_observed": 5000,
     "col.canvas_layout_checked": 5000,
     "col.cache_hit_agrees": 5000,
+    "col.live_focus_walks_at_same_width": 3000,
+    "live.histories": 300,
+    "live.ops_applied": 2000,
+    "live.op_focus": 800,
+    "live.op_size": 500,
+    "live.op_set": 300,
+    "live.op_boxcols": 20,
     "col.zero_domain_evals": 200,
     "pile.zero_domain_evals": 200,
     "pile.evals": 12000,
@@ -41,6 +48,7 @@ REQUIRE = {
     "pile.cl_weighted_fill_remainder": 10000,
     "pile.cl_proportional": 3000,
     "pile.child_sizes_observed": 2000,
+    "pile.live_revisits_same_height": 500,
     "pile.canvas_layout_checked": 2000,
     "pad.evals": 9000,
     "pad.cl_sum_exact": 9000,
@@ -60,6 +68,8 @@ REQUIRE = {
     "ovl.cl_remaining_otherwise": 100,
     "ovl.cl_split_by_percentage": 1900,
     "ovl.child_sizes_observed": 1400,
+    "grid.directed_core_cases": 800,
+    "grid.directed_wrap_window_cases": 140,
     "grid.evals": 500,
     "grid.cl_every_cell_shown": 500,
     "grid.cl_cell_width": 500,
@@ -70,12 +80,12 @@ REQUIRE = {
 }
 RULE = (
     "Columns: exhaustive over <=3 columns, the 4-column space in shuffled order as far as the budget allows (col.exhaustive_4column_configs_done of columns_4column_configs_total) x option in {given 1..6, pack with a "
-    "fixed spy of pack width 1..6, weight 1..3} x dividechars 0..2 x min_width 1..3 x every focus x maxcol 1..24 on one live object "
+    "fixed spy of pack width 1..6, weight 1..3} x dividechars 0..2 x min_width 1..3 x maxcol 1..24 x (focus walked forward, one other width, focus walked back: A/focus change/A and A/B/A against a warm width cache) on one live object "
     "per configuration (warm cache), every 9th evaluation also rendered (flow size; box size in the random part) so that spy logs and glyph positions are read; "
     "random beyond (<=7 columns, sizes to 30, float and zero weights, zero given, box_columns flags, flow/fixed/box spy sizings, maxcol "
     "to 80). Pile: same scheme over <=4 items x {given 1..6, pack spy rows 1..6, weight 1..3} x maxrow 1..24. Padding / Filler / "
     "Overlay: align kinds {left,center,right,relative 0,1,33,50,67,99,100} x size kinds {given, relative, pack, clip} x min sizes x "
-    "margins 0..3 x available 1..24, random beyond. GridFlow: 1..8 cells x cell width x separators x align x maxcol, glyph boxes read "
+    "margins 0..3 x available 1..24, random beyond. Live histories: random sequences of size / focus_position / contents[i]= / box_columns= on one Columns or box Pile, all clauses re-judged after every operation. GridFlow: directed core first (1..5 cells x cell width 1..5 x h_sep 0..2 x every maxcol from 1 to two past the one-line width, deterministic, not time-limited), then 1..8 cells x cell width x separators x align x maxcol, glyph boxes read "
     "off the canvas. A case = (container, options, focus, available size); distinct = distinct (options, focus) tuples for the two "
     "exhaustive cores and distinct full descriptors elsewhere; beyond 250k distinct descriptors per shard further cases are evaluated but not de-duplicated (counter cases_beyond_distinct_cap_not_deduplicated); *.shards_complete counters tell how many shards finished their slice of each enumeration in the time budget; non-trivial = the real code was executed and judged (cases for which "
     "urwid emits a WidgetWarning are counted as skipped_invalid, not as evaluations)"
@@ -747,8 +757,13 @@ def case_padding(d, obs):
         canv = P.render(size, False)
         rows = text_rows(canv)
         ccols = canv.cols()
-    except WidgetWarning:
-        obs.c["skipped_invalid"] += 1
+    except WidgetWarning as e:
+        if wk == "given" and width >= 1 and width + d["left"] + d["right"] <= maxcol:
+            # "too narrow" although the given width fits beside the fixed margins: the warning is a symptom, not a domain limit
+            obs.c["pad.evals"] += 1
+            obs.fail(f"C19|Padding|render|warning-though-request-fits:{type(e).__name__}|{shape}", f"{type(e).__name__}: {e}")
+        else:
+            obs.c["skipped_invalid"] += 1
         return
     except Exception as e:  # noqa: BLE001
         obs.c["pad.evals"] += 1
@@ -1022,9 +1037,26 @@ def case_gridflow(d, obs):
         canv = G.render(size, bool(d.get("f", False)))
         rows = text_rows(canv)
         ccols = canv.cols()
-    except WidgetWarning:
-        obs.c["skipped_invalid"] += 1
+    except urwid.widget.grid_flow.GridFlowWarning:
+        obs.c["skipped_invalid"] += 1  # GridFlow's own diagnostic about the caller's input (size smaller than a cell)
         return
+    except WidgetWarning as e:
+        # a warning from the Pile / Padding / Columns that GridFlow builds itself is not about the caller's input:
+        # GridFlow asked its own parts for something they cannot lay out
+        obs.fail(f"C19|GridFlow|render|warning-from-internal-layout-widget:{type(e).__name__}|{shape}", f"{type(e).__name__}: {e}")
+        # look at what is drawn anyway (warning silenced) so that the visible symptom is reported as well
+        try:
+            with warnings.catch_warnings():
+                warnings.simplefilter("ignore", WidgetWarning)
+                for sp in spies:
+                    sp.reset()
+                G = urwid.GridFlow(spies, cw, hs, vs, py_align(d["align"]), focus=d["focus"])
+                canv = G.render(size, bool(d.get("f", False)))
+                rows = text_rows(canv)
+                ccols = canv.cols()
+        except Exception:  # noqa: BLE001
+            obs.c["grid.evals"] += 1
+            return
     except Exception as e:  # noqa: BLE001
         obs.c["grid.evals"] += 1
         obs.fail(f"C19|GridFlow|render|raise:{type(e).__name__}|{shape}", f"{type(e).__name__}: {e}\n{tb()}")
@@ -1098,7 +1130,78 @@ def case_gridflow(d, obs):
         obs.c["grid.multi_line"] += 1
 
 
+def case_live(d, obs):
+    """one live Columns / box Pile object driven through a history of public operations (available size, focus_position,
+    contents[i] = (widget, options), Columns.box_columns setter); every clause is re-judged after every operation.
+    A failure that a fresh object with the same final state also shows is reported under its plain signature,
+    otherwise as '...|live-object|last-op=<kind>'."""
+    iscol = d["c"] == "columns"
+    cur = {"k": d["c"], "cols" if iscol else "items": [list(x) for x in d["parts"]], "maxcol": d["maxcol"]}
+    if iscol:
+        cur.update(div=d["div"], minw=d["minw"])
+    parts = cur["cols" if iscol else "items"]
+    try:
+        W, spies = (build_columns if iscol else build_pile)(cur)
+    except WidgetWarning:
+        obs.c["skipped_invalid"] += 1
+        return
+    focus = 0
+    size = d["size"]
+    obs.c["live.histories"] += 1
+    for k, op in enumerate(d["ops"]):
+        kind = op[0]
+        try:
+            if kind == "size":
+                size = op[1]
+            elif kind == "focus":
+                focus = op[1] % len(parts)
+            elif kind == "set":
+                i = op[1] % len(parts)
+                parts[i] = list(op[2])
+                tmp = dict(cur)
+                tmp["cols" if iscol else "items"] = [parts[i]]
+                _w2, sp2 = (build_columns if iscol else build_pile)(tmp)
+                sp2[0].glyph = GLYPHS[i]
+                spies[i] = sp2[0]
+                W.contents[i] = (sp2[0], _w2.contents[0][1])
+            elif kind == "boxcols" and iscol:
+                W.box_columns = [i for i in op[1] if i < len(parts)]
+                for i, pt in enumerate(parts):
+                    while len(pt) < 4:
+                        pt.append(False)
+                    pt[3] = i in op[1]
+            else:
+                continue
+        except WidgetWarning:
+            obs.c["skipped_invalid"] += 1
+            return
+        except Exception as e:  # noqa: BLE001
+            obs.fail(f"C19|{d['c'].capitalize()}|live-object|op-{kind}|raise:{type(e).__name__}", f"{type(e).__name__}: {e}\n{tb()}")
+            return
+        obs.c["live.ops_applied"] += 1
+        obs.c[f"live.op_{kind}"] += 1
+        mode = d.get("modes", ["widths"])[k % len(d.get("modes", ["widths"]))]
+        before = len(obs.fails)
+        if iscol:
+            eval_columns(obs, W, spies, cur, focus, size, mode, 2, bool(d.get("f", False)))
+        else:
+            eval_pile(obs, W, spies, cur, focus, size, "rows" if mode == "widths" else "render")
+        if len(obs.fails) > before:
+            new = obs.fails[before:]
+            del obs.fails[before:]
+            plain = dict(cur, focus=focus, mode=mode if iscol else ("rows" if mode == "widths" else "render"))
+            plain["maxcol" if iscol else "maxrow"] = size
+            fresh = {sg for sg, _ in evaluate(plain)}
+            for sg, msg in new:
+                if sg in fresh:
+                    obs.fail(sg, msg)
+                else:
+                    obs.fail(f"{sg}|live-object|last-op={kind}", f"{msg} (after ops {d['ops'][: k + 1]})")
+            return
+
+
 CASES = {
+    "live": case_live,
     "columns": case_columns,
     "pile": case_pile,
     "padding": case_padding,
@@ -1133,6 +1236,16 @@ def _cands(d):
                     nd["focus"] = min(f - (1 if i < f else 0), len(nd[key]) - 1)
                     nd["focus"] = max(nd["focus"], 0)
                 yield nd
+    if d.get("ops") and len(d["ops"]) > 1:
+        for i in range(len(d["ops"]) - 1, -1, -1):
+            nd = dict(d)
+            nd["ops"] = d["ops"][:i] + d["ops"][i + 1 :]
+            yield nd
+    if "parts" in d and len(d["parts"]) > 1:
+        for i in range(len(d["parts"])):
+            nd = dict(d)
+            nd["parts"] = d["parts"][:i] + d["parts"][i + 1 :]
+            yield nd
     if d.get("history"):
         nd = dict(d)
         nd["history"] = d["history"][:-1]
@@ -1259,15 +1372,24 @@ def columns_exhaustive(ctx, obs, frac):
         d = {"k": "columns", "cols": [list(c) for c in combo], "div": div, "minw": minw}
         C, spies = build_columns(d)
         hist = []
-        for focus in range(n):
-            for maxcol in range(1, 25):
+        nev = 0
+        # one live object: at every width A walk the focus through all positions, ask for another width B, then walk the
+        # focus back at A again (A / focus change / A and A / B / A, so that a width cache that survives a focus change or
+        # is keyed too coarsely shows up); every clause is re-judged after every step
+        for maxcol in range(1, 25):
+            other = maxcol - 1 if maxcol > 1 else 2
+            steps = [(f, maxcol) for f in range(n)] + [(n - 1, other)] + [(f, maxcol) for f in range(n - 1, -1, -1)]
+            for focus, mc in steps:
                 state["tick"] += 1
+                nev += 1
                 mode = "flow" if state["tick"] % 9 == 0 else "widths"
-                eval_columns(obs, C, spies, d, focus, maxcol, mode, 2, False, "")
+                eval_columns(obs, C, spies, d, focus, mc, mode, 2, False, "")
                 if obs.fails:
-                    report(ctx, dict(d, focus=focus, maxcol=maxcol, mode=mode, history=list(hist)), obs.take())
-                hist.append([focus, maxcol])
-            ctx.case(hash(("col", combo, div, minw, focus)), n=24)
+                    report(ctx, dict(d, focus=focus, maxcol=mc, mode=mode, history=hist[-12:]), obs.take())
+                hist.append([focus, mc])
+            obs.c["col.live_focus_walks_at_same_width"] += 1
+        for focus in range(n):
+            ctx.case(hash(("col", combo, div, minw, focus)), n=nev // n if focus else nev - (nev // n) * (n - 1))
 
     complete = True
     done4 = 0
@@ -1376,13 +1498,21 @@ def pile_exhaustive(ctx, obs, frac):
             P, spies = build_pile(d)
             focus = idx % n
             has_w = any(k == "weight" for k, _, _ in combo)
+            nev = 0
             for maxrow in range(1, 25) if has_w else (1, 7, 24):
-                tick += 1
-                mode = "render" if tick % 5 == 0 else "rows"
-                eval_pile(obs, P, spies, d, focus, maxrow, mode)
-                if obs.fails:
-                    report(ctx, dict(d, focus=focus, maxrow=maxrow, mode=mode), obs.take())
-            ctx.case(hash(("pile", combo)), n=24)
+                # same live object: the focus moves at every step, every 6th height is revisited after another one (A / B / A)
+                steps = [((focus + maxrow) % n, maxrow)]
+                if has_w and maxrow % 6 == 0:
+                    steps += [((focus + maxrow + 1) % n, maxrow), ((focus + maxrow + 1) % n, maxrow - 1), ((focus + maxrow) % n, maxrow)]
+                    obs.c["pile.live_revisits_same_height"] += 1
+                for f, mr in steps:
+                    tick += 1
+                    nev += 1
+                    mode = "render" if tick % 5 == 0 else "rows"
+                    eval_pile(obs, P, spies, d, f, mr, mode)
+                    if obs.fails:
+                        report(ctx, dict(d, focus=f, maxrow=mr, mode=mode), obs.take())
+            ctx.case(hash(("pile", combo)), n=nev)
             if idx % 50 == 0:
                 U().CanvasCache.clear()
         else:
@@ -1390,6 +1520,50 @@ def pile_exhaustive(ctx, obs, frac):
         break
     ctx.count("pile.exhaustive_shards_complete", int(complete))
     ctx.sample({"k": "pile", "items": [["given", 2, "b"], ["weight", 1, "b"], ["pack", 3, "l"], ["weight", 2, "b"]], "focus": 1, "maxcol": 3, "maxrow": 11, "mode": "render"})
+
+
+def rand_live(rng):
+    """history on one live object: few distinct sizes (so that the same size recurs), many focus moves"""
+    iscol = rng.random() < 0.7
+    n = rng.randint(2, 5)
+
+    def part():
+        r = rng.random()
+        if iscol:
+            if r < 0.45:
+                return ["given", rng.randint(1, 6), "bl", False]
+            if r < 0.6:
+                return ["pack", rng.randint(1, 6), "blx", False]
+            return ["weight", rng.choice([1, 1, 2, 3]), "bl", False]
+        if r < 0.35:
+            return ["given", rng.randint(1, 6), "b"]
+        if r < 0.55:
+            return ["pack", rng.randint(1, 6), "l"]
+        return ["weight", rng.choice([1, 1, 2, 3]), "b"]
+
+    parts = [part() for _ in range(n)]
+    if not iscol and not any(p[0] == "weight" for p in parts):
+        parts[rng.randrange(n)] = ["weight", 1, "b"]
+    sizes = [rng.randint(1, 16) for _ in range(rng.randint(1, 3))]
+    ops = []
+    for _ in range(rng.randint(4, 14)):
+        r = rng.random()
+        if r < 0.45:
+            ops.append(["focus", rng.randrange(n)])
+        elif r < 0.75:
+            ops.append(["size", rng.choice(sizes)])
+        elif r < 0.93 or not iscol:
+            p = part()
+            if not iscol and p[0] != "weight" and sum(q[0] == "weight" for q in parts) <= 1:
+                p = ["weight", rng.choice([1, 2, 3]), "b"]
+            ops.append(["set", rng.randrange(n), p])
+        else:
+            ops.append(["boxcols", sorted(rng.sample(range(n), rng.randint(0, n)))])
+    d = {"k": "live", "c": "columns" if iscol else "pile", "parts": parts, "maxcol": 3, "size": sizes[0], "ops": ops,
+         "modes": rng.choice([["widths"], ["widths", "flow"], ["widths", "box", "widths"], ["box"], ["flow"]]) if iscol else rng.choice([["widths"], ["widths", "box"]])}  # fmt: skip
+    if iscol:
+        d.update(div=rng.choice([0, 1, 2]), minw=rng.choice([1, 1, 2, 3]), f=rng.random() < 0.5)
+    return d
 
 
 def rand_pile(rng):
@@ -1605,6 +1779,27 @@ def rand_overlay(rng):
     )  # fmt: skip
 
 
+def gridflow_directed(ctx, obs):
+    """deterministic core, not time-limited: every available width from 1 to two past the one-line width for every small
+    (cells, cell width, h_sep), so that every wrap window -- room for the next cell but not for separator + cell -- is
+    visited in every run"""
+    idx = 0
+    for n, cw, hs in itertools.product(range(1, 6), range(1, 6), range(3)):
+        for maxcol in range(1, n * cw + (n - 1) * hs + 3):
+            idx += 1
+            if not ctx.mine(idx):
+                continue
+            vs = idx % 2
+            al = ALIGNS[idx % len(ALIGNS)]
+            d = {"k": "gridflow", "cells": [[1, False]] * n, "cw": cw, "hsep": hs, "vsep": vs, "align": al, "focus": idx % n, "maxcol": maxcol}
+            before = obs.c["grid.evals"]
+            run_desc(ctx, obs, d)
+            if obs.c["grid.evals"] > before:
+                obs.c["grid.directed_core_cases"] += 1
+                if hs and any((k + 1) * cw + (k - 1) * hs <= maxcol < (k + 1) * cw + k * hs for k in range(1, n)):
+                    obs.c["grid.directed_wrap_window_cases"] += 1
+
+
 def gridflow_exhaustive(ctx, obs, frac):
     idx = 0
     complete = True
@@ -1668,10 +1863,12 @@ def run(ctx):
         constants.normalize_align, constants.normalize_width, constants.normalize_valign, constants.normalize_height,
     )  # fmt: skip
     obs = Obs()
+    gridflow_directed(ctx, obs)
     # budget fractions (cumulative): each part = enumerated core, then random cases until its slice ends
     columns_exhaustive(ctx, obs, 0.40)
     zero_sweep(ctx, obs)
-    random_until(ctx, obs, rand_columns, 0.46, "col.random_cases")
+    random_until(ctx, obs, rand_live, 0.44, "live.random_histories")
+    random_until(ctx, obs, rand_columns, 0.47, "col.random_cases")
     merge_counts(ctx, obs)
     pile_exhaustive(ctx, obs, 0.54)
     random_until(ctx, obs, rand_pile, 0.58, "pile.random_cases")
